@@ -91,6 +91,8 @@ class C12(Prop):
             return j
         if c['stop'] < c['start']:
             j.failures.append('end earlier than start was accepted')
+        if len(impl) > 2:
+            j.failures.append('iterating the same engine a second time gives %d events instead of %d' % (len(impl[2]), len(impl[1])))
         me = [[e[0], e[1]] for e in mod[1]]
         if me != impl[1]:
             k = next((i for i, (a, b) in enumerate(zip(me, impl[1])) if a != b), min(len(me), len(impl[1])))
